@@ -425,7 +425,7 @@ def run(tier, seed):
         "that produced at least one notification")
     found = {}
     deadline = time.time() + (900 if tier == "quick" else 6000)
-    scns = scenarios.STRUCTURAL + [scenarios.S6, scenarios.S7, scenarios.S8]
+    scns = scenarios.STRUCTURAL + [scenarios.S6, scenarios.S7, scenarios.S8] + [x for x in scenarios.naming_scenarios() if x.name == "N-MIX-EDIF"]
     k = seed % len(scns)
     for scn in scns[k:] + scns[:k]:
         engine_a.explore(ID, scn, tier, cov, found, deadline)
